@@ -79,7 +79,7 @@ Proof.
       inversion H1; subst. rewrite Es in H2. discriminate. }
   rewrite res_all_pair_id. cbn [bind].
   destruct (s <? 0) eqn:E1.
-  { split; [discriminate|]. intros (sl' & s' & e' & r0' & r1' & c0' & c1' & _ & _ & H1 & H2 & H3 & _).
+  { split; [destruct (s <? - Z.of_nat (length sl)); discriminate|]. intros (sl' & s' & e' & r0' & r1' & c0' & c1' & _ & _ & H1 & H2 & H3 & _).
     inversion H1; subst. rewrite Es in H2. inversion H2; subst. lia. }
   destruct ((r1 <=? r0) || (c1 <=? c0)) eqn:E2.
   { split; [discriminate|].
@@ -184,7 +184,7 @@ Proof.
   destruct (std_slice _ _ _ _) as [[s e]|k4] eqn:Es; cbn [bind fst snd].
   2:{ intros H. inversion H; subst. apply std_slice_err_kinds in Es. tauto. }
   rewrite res_all_pair_id. cbn [bind].
-  destruct (s <? 0); [intros H; inversion H; auto|].
+  destruct (s <? 0); [destruct (s <? - Z.of_nat (length sl)); intros H; inversion H; auto|].
   destruct ((r1 <=? r0) || (c1 <=? c0)); [intros H; inversion H; auto|discriminate].
 Qed.
 
@@ -248,7 +248,7 @@ Proof.
   destruct (pm_volume pos frames) as [sl|k3] eqn:Ev; cbn [bind]; [|discriminate].
   destruct (std_slice (v_ss a) (v_se a) (Z.of_nat (length sl)) (v_ai a)) as [[s e]|k4] eqn:Es;
     cbn [bind fst snd]; [|discriminate].
-  destruct (s <? 0) eqn:E1; [discriminate|].
+  destruct (s <? 0) eqn:E1; [destruct (s <? - Z.of_nat (length sl)); discriminate|].
   destruct (res_all _) as [out'|k5] eqn:Ea; cbn [bind]; [|discriminate].
   destruct ((r1 <=? r0) || (c1 <=? c0)) eqn:E2; [discriminate|].
   intros H. inversion H; subst. exists sl, s, e, r0, r1, c0, c1.
